@@ -7,6 +7,7 @@ CONSTANTS
   MaxDisc = 0
   MaxSubs = 1
   Sequential = FALSE
+  Abandons = FALSE
   Timeouts = FALSE
   Limits <- NoLimits
   Affs <- NoAffs
